@@ -92,7 +92,8 @@ class Model:
 
 def consts(m, **kw):
     c = dict(Scope=set(m.ids), VC1={"bare"}, VC2={"bare"}, SpMode="all", NMax=2, IMax=2, K=1, GenDepth=0, MinR=1, MaxR=1,
-             ChForms={("bare", "bare")}, PqSet={"bare"}, ErrSet={"none"}, Bases={"pull"}, Orders={"canon"}, Cms={"none"})
+             ChForms={("bare", "bare")}, PqSet={"bare"}, ErrSet={"none"}, Bases={"pull"}, Orders={"canon"}, Cms={"none"},
+             NmScope=set(), NmVC={"bare"})
     c.update(kw)
     return c
 
@@ -112,15 +113,21 @@ def plans(ctx, m):
     ctxfeat = {"r.pull", "r.pull.path", "r.pull.auth_token", "r.deliver", "pull_api", "pull_api.auth_token"}   # occupied by the base contexts
     if ctx.quick:
         P.append(dict(name="val-pull", nv=3, w=6, consts=consts(m, Scope=set(m.ids) - m.under("r.deliver") - {"r.deliver_concurrency"},
-                                                            VC1=allvc, VC2={"bare", "blank", "kwq", "ph_env", "brace"})))
+                                                            VC1=allvc, VC2={"bare", "blank", "kwq", "ph_env", "brace", "ctrl"})))
         P.append(dict(name="val-deliver", nv=3, w=3, consts=consts(m, Scope=deliver | m.under("pull_api"), VC1=allvc,
-                                                               VC2={"bare", "blank", "kwq", "esc", "brace"}, Bases={"deliver"})))
+                                                               VC2={"bare", "blank", "kwq", "esc", "brace", "ctrl"}, Bases={"deliver"})))
         P.append(dict(name="val-none", nv=2, w=2, consts=consts(m, Scope=ctxfeat, VC1=allvc, VC2=allvc2, Bases={"none"})))
         P.append(dict(name="val-vars", nv=2, w=2, consts=consts(m, VC1={"vars"}, VC2={"vars", "bare"}, Bases={"pullv", "deliverv"}, SpMode="default")))
         P.append(dict(name="pairs-route", nv=2, w=6, consts=consts(m, Scope=ingress_side, VC1={"bare", "blank"}, K=2)))
         P.append(dict(name="pairs-deliver", nv=2, w=4, consts=consts(m, Scope=m.under("r.deliver", "secrets") | {"r.deliver_concurrency"},
                                                                  VC1={"bare", "quoted"}, K=2, Bases={"deliver"})))
         P.append(dict(name="triples-auth", nv=2, w=4, consts=consts(m, Scope=auth, VC1={"bare"}, K=3, NMax=2)))
+        # near-miss programs: one setting spelled twice (parse verdict observed, not predicted)
+        P.append(dict(name="nm-route", nv=2, w=4, consts=consts(m, Scope=ingress_side, VC1={"bare", "bad"}, K=1, NMax=1, NmScope=set(m.ids))))
+        P.append(dict(name="nm-deliver", nv=2, w=2, consts=consts(m, Scope=m.under("r.deliver", "secrets", "vars") | {"matcher", "r.deliver_concurrency"},
+                                                              VC1={"bare", "bad"}, K=1, NMax=1, IMax=1, Bases={"deliver"}, NmScope=set(m.ids))))
+        P.append(dict(name="nm-top", nv=2, w=4, consts=consts(m, Scope=top - m.under("defaults.trend_signals"), VC1={"bare"}, K=1, NMax=1, IMax=1,
+                                                          SpMode="default", NmScope=set(m.ids))))
         P.append(dict(name="channels", nv=2, w=4, consts=consts(m, Scope={"r.publish", "r.application", "ingress"}, K=1, MinR=0, MaxR=3,
                                                             ChForms=ALL_CHFORMS, ErrSet={"none", "dup_path"}, Bases={"auto"}, SpMode="default",
                                                             Orders={"shuffle"})))
@@ -154,6 +161,13 @@ def plans(ctx, m):
         P.append(dict(name="pairs-top", nv=2, w=8, consts=consts(m, Scope=top, VC1={"bare", "blank"}, K=2, NMax=1)))
         P.append(dict(name="triples-route", nv=2, w=10, consts=consts(m, Scope=ingress_side, VC1={"bare"}, K=3, NMax=1)))
         P.append(dict(name="triples-auth", nv=2, w=8, consts=consts(m, Scope=auth, VC1={"bare", "blank"}, K=3, NMax=1)))
+        P.append(dict(name="nm-route", nv=2, w=8, consts=consts(m, Scope=ingress_side, VC1={"bare", "bad", "quoted"}, K=2, NMax=1,
+                                                            SpMode="default", NmScope=set(m.ids), NmVC={"bare", "bad"})))
+        P.append(dict(name="nm-route1", nv=3, w=6, consts=consts(m, Scope=ingress_side, VC1={"bare", "bad", "blank", "ctrl"}, K=1,
+                                                             NmScope=set(m.ids), NmVC={"bare", "bad", "quoted", "blank"})))
+        P.append(dict(name="nm-deliver", nv=2, w=6, consts=consts(m, Scope=m.under("r.deliver", "secrets", "vars", "defaults.deliver") | {"matcher", "r.deliver_concurrency"},
+                                                              VC1={"bare", "bad"}, K=2, NMax=1, Bases={"deliver"}, NmScope=set(m.ids), NmVC={"bare", "bad"})))
+        P.append(dict(name="nm-top", nv=2, w=6, consts=consts(m, Scope=top, VC1={"bare", "bad"}, K=1, NmScope=set(m.ids), NmVC={"bare", "bad"})))
         P.append(dict(name="channels", nv=2, w=8, consts=consts(m, Scope={"r.publish", "r.auth_basic", "ingress"}, K=1, MinR=0, MaxR=3,
                                                             ChForms=ALL_CHFORMS, ErrSet={"none", "dup_path"},
                                                             Bases={"auto"}, SpMode="default", Orders={"shuffle"})))
@@ -378,8 +392,19 @@ def non_vacuity(ctx, m, s, quick):
         problems.append("validity sides not populated: valid=%d invalid=%d" % (s["valid"], s["invalid"]))
     if s["with_warnings"] < 50:
         problems.append("fewer than 50 programs with warnings")
-    if s["parsed"] < 0.98 * s["events"]:
-        problems.append("only %d of %d events parsed" % (s["parsed"], s["events"]))
+    if s["parsed"] - s["nm_parsed"] < 0.98 * (s["events"] - s["nm_events"]):
+        problems.append("only %d of %d events (near-miss programs aside) parsed" % (s["parsed"] - s["nm_parsed"], s["events"] - s["nm_events"]))
+    # near-miss programs: both verdicts of the parser must occur, and the families of DESIGN A.7 must be there
+    if s["nm_rejected"] < 200 or s["nm_parsed"] < 200:
+        problems.append("near-miss programs: %d refused / %d accepted by the parser" % (s["nm_rejected"], s["nm_parsed"]))
+    nm_want = ["r.publish|short", "r.publish|block", "r.publish|dot", "r.publish.direct|-", "r.publish_mix|-", "r.queue|short", "r.queue|block",
+               "r.auth_forward|short", "r.auth_forward|block", "r.auth_hmac|block", "obs.metrics|short", "obs.metrics|block",
+               "obs.tracing|short", "obs.tracing|block", "obs.access_log|short", "obs.access_log|block", "obs.runtime_log|short",
+               "obs.runtime_log|block", "r.max_body|-", "r.pull|block", "r.match|block", "ingress|block", "ingress.listen|-",
+               "r.deliver.sign_ref|line", "r.deliver.sign_hmac|-", "r.deliver.timeout|-", "r.deliver.retry|t"]
+    miss = [k for k in nm_want if not dims.get("nm:" + k)]
+    if miss:
+        problems.append("near-miss families never generated: %s" % miss)
     ctx.count("features_covered", len(m.ids) - len(missing))
     ctx.count("features_total", len(m.ids))
     ctx.count("spellings_covered", sum(len(f["sps"]) for f in m.table) - len(miss_sp))
@@ -441,7 +466,7 @@ def run(ctx):
     ctx.cov["traces_validated_against_impl"] += sum(r["matched"] for r in res)
     ctx.cov["schedules_executed"] += s["events"]
     for k in ("programs", "events", "parsed", "not_parsed", "valid", "invalid", "with_warnings", "distinct_texts", "distinct_parsed_texts",
-              "nil_vs_empty_only", "func_fields", "nondet", "render_errors", "emitted_mismatch"):
+              "nil_vs_empty_only", "func_fields", "nondet", "render_errors", "emitted_mismatch", "nm_events", "nm_parsed", "nm_rejected"):
         ctx.count(k, s[k])
     for k, v in sorted(s["tag_ok"].items()):
         ctx.count("tag/observed_ok " + k, v)
@@ -466,6 +491,7 @@ def run(ctx):
         "environment variables and {file.*} targets referenced by generated placeholders are created by the tool and unchanged between the two compilations",
         "vars cycles of length >= 2 are not generated (their error text depends on map iteration order); every event is checked for a deterministic Compile",
         "comments after the first statement are not preserved by design; meaning and idempotence are compared, not comment text",
+        "near-miss programs (one setting spelled twice) are generated without predicting the parser's verdict; those it refuses are vacuous for the property and counted (nm_rejected)",
         "bounds: <= K feature instances per exhaustive scope (see mc_runs), <= 2 values per multi-value directive, <= 3 routes, <= 2 deliver targets / secrets / matchers / vars",
     ]
     vf.write_evidence(ctx, "model_checking", RULE, exhaustive=False)
